@@ -43,13 +43,38 @@ function make_stream(buffers) {
     });
 }
 
-async function read_result(stream, csv_path, enc, pol, hdr, modi, d, comment) {
+// a consumer that yields to the event loop between get_record() calls (a writer awaiting real I/O): the producer side of the reader keeps
+// enqueueing chunks meanwhile, so the order in which records leave the queue is exercised, not only the order in which they enter it
+async function all_records_slowly(it) {
+    const records = [];
+    let k = 0;
+    while (true) {
+        const r = await it.get_record();
+        if (r === null) break;
+        records.push(r);
+        k += 1;
+        if (k % 7 == 3) await new Promise(res => setTimeout(res, 0)); else await new Promise(res => setImmediate(res));
+    }
+    return records;
+}
+
+// a source that delivers each chunk from a later turn of the event loop (a file or a socket), not synchronously from read()
+function make_stream_async(buffers) {
+    let i = 0;
+    return new Readable({
+        read() {
+            setImmediate(() => { if (i < buffers.length) this.push(buffers[i++]); else this.push(null); });
+        }
+    });
+}
+
+async function read_result(stream, csv_path, enc, pol, hdr, modi, d, comment, slow) {
     try {
         const it = new rbql_csv.CSVRecordIterator(stream, csv_path, js_encoding(enc), d, pol, hdr == '1', comment);
         if (modi == 'h') it.handle_query_modifier('header');
         if (modi == 'N') it.handle_query_modifier('noheader');
         const header = await it.get_header();
-        const records = await it.get_all_records();
+        const records = slow ? await all_records_slowly(it) : await it.get_all_records();
         const warnings = it.get_warnings();
         return `ok ${enc_opt_list(header)} ${enc_table(records)} ${canon_warnings(warnings)}`;
     } catch (e) {
@@ -65,7 +90,10 @@ function bytes_of(txt) { return Buffer.from(dec_str(txt).split('').map(c => c.ch
 
 OPS['readjs'] = async (pol, enc, hdr, modi, d, comment, pieces_txt) => {
     const buffers = dec_list(pieces_txt).map(p => Buffer.from(p.split('').map(c => c.charCodeAt(0))));
-    return await read_result(make_stream(buffers), null, enc, pol, hdr, modi, dec_str(d), comment == '~' ? null : dec_str(comment));
+    const fast = await read_result(make_stream(buffers), null, enc, pol, hdr, modi, dec_str(d), comment == '~' ? null : dec_str(comment), false);
+    if (buffers.length < 3) return fast;
+    const slow = await read_result(make_stream_async(buffers), null, enc, pol, hdr, modi, dec_str(d), comment == '~' ? null : dec_str(comment), true);
+    return fast === slow ? fast : `err consumer-dependent get_all_records:[${fast}] yielding-consumer:[${slow}]`;
 };
 
 OPS['readjsbytes'] = async (pol, hdr, modi, d, comment, pieces_txt) => OPS['readjs'](pol, 'utf-8', hdr, modi, d, comment, pieces_txt);
